@@ -43,6 +43,12 @@ ALL = [(("tie_circuit_all_execute", "CM.GoTie.execute_tie", "ALL TOGETHER, no hy
 LIVECFG = [(("tie_livecfg_reset", "CM.GoTie.GoLiveCfg.go_reset_eq", "`atomicCircuitConfig.reset` publishes every mirrored setting of the config it is given"), "T_GoLiveCfg"),
            (("tie_livecfg_reset_all", "CM.GoTie.GoLiveCfg.reset_publishes_all", "… spelled out field by field"), "T_GoLiveCfg")]
 def T(unit, items): return [(it, "T_" + unit) for it in items]
+SETCFG = T("GoSetCfg", [
+    ("tie_setcfg_live", "CM.GoTie.GoSetCfg.go_SetConfigThreadSafe_eq", "`SetConfigThreadSafe` stores the config, publishes EVERY mirrored setting, tells Configurable logic; nothing else"),
+    ("tie_setcfg_live_keeps", "CM.GoTie.GoSetCfg.setLive_keeps", "… collectors, logic objects and hooks stay"),
+    ("tie_setcfg_rebuild", "CM.GoTie.GoSetCfg.go_SetConfigNotThreadSafe_eq", "`SetConfigNotThreadSafe` takes the hooks, makes both logic objects afresh, REBUILDS the three collector lists, then does what the live one does"),
+    ("tie_setcfg_rebuild_lists", "CM.GoTie.GoSetCfg.rebuild_replaces_collectors", "… the lists are closer, opener, then the configured collectors in order — nothing of the previous configuration stays"),
+    ("tie_setcfg_Config", "CM.GoTie.GoSetCfg.go_Config_eq", "`Config()` returns what was stored")])
 TC = T("GoTimedCheck", [
     ("tie_gate_resetOpen", "CM.GoTie.GoTimedCheck.go_resetOpenTimeWithLock_eq", "`resetOpenTimeWithLock` is the model's `TC.resetOpen` (+ the closure handed to the timer hook)"),
     ("tie_gate_reset_tc", "CM.GoTie.GoTimedCheck.reset_tc", "… its `tc` part literally"),
@@ -89,9 +95,9 @@ PROPS = {
     "C06": ("fallback rules: `Execute` and `fallback`", [FALLBACK, EXECUTE, RUNENTRY] + FAN_FB),
     "C07": ("contexts: the derived deadline context in `run`, the caller's context everywhere else", [RUN, FALLBACK, EXECUTE]),
     "C08": ("overrides and pass-through: `IsOpen`, `allowNewRun`, the transitions, `Execute`'s Disabled branch, the published flags",
-            [C("IsOpen"), C("isEmptyOrNil"), C("allowNewRun"), C("openCircuit"), C("close"), C("attemptToOpen"), EXECUTE] + LIVECFG),
+            [C("IsOpen"), C("isEmptyOrNil"), C("allowNewRun"), C("openCircuit"), C("close"), C("attemptToOpen"), EXECUTE] + LIVECFG + SETCFG),
     "C09": ("transitions and their notifications",
-            [C("IsOpen"), C("openCircuit"), C("close"), C("attemptToOpen"), C("OpenCircuit"), C("CloseCircuit"), C("checkSuccess"), C("checkErrFailure"), C("checkErrTimeout")] + FAN_CIRC),
+            [C("IsOpen"), C("openCircuit"), C("close"), C("attemptToOpen"), C("OpenCircuit"), C("CloseCircuit"), C("checkSuccess"), C("checkErrFailure"), C("checkErrTimeout")] + FAN_CIRC + SETCFG),
     "C10": ("panics: the deferred calls of `run` and `fallback` run on every exit", [RUN, FALLBACK, EXECUTE]),
     "C12": ("every timestamp is a reading of the configured clock: all translated functions of circuit.go",
             [C("now"), C("OpenCircuit"), C("CloseCircuit"), RUN, FALLBACK] + ALL),
@@ -114,7 +120,7 @@ PROPS = {
 # which regenerated units each property's tie depends on (-> lib/props.py "generated")
 UNITS = {"F_": "gocircuit", "All": "gocircuit", "T_GoHOpener": "gohopener", "T_GoHCloser": "gohcloser", "T_GoConsec": "goconsec", "T_GoRunStats": "gorunstats",
          "T_GoFbStats": "gofbstats", "T_GoSlo": "goslo", "T_GoTimedCheck": "gotimedcheck", "T_GoLiveCfg": "golivecfg",
-         "T_GoFanout": ["gofanrun", "gofanfb", "gofancirc"]}
+         "T_GoFanout": ["gofanrun", "gofanfb", "gofancirc"], "T_GoSetCfg": "gosetcfg", "T_GoStream": "gostream"}
 
 def units_of(prop):
     us = []
